@@ -360,8 +360,8 @@ def stream_compounds(run: Run, c: Ctx, batch: Batch, n):
                            "ior_list", "mirror", "mirror_w", "sld_nodensity"])
         if idx < len(CORPUS):
             call = CORPUS[idx][1]
-        if call == "sld_nat" and not ion_free:
-            call = "sld_e"
+        # (natural_density= is exercised on ions and isotope ions too: the natural partner of an ion
+        #  keeps its charge – formulas._natural_atom, repaired by a5158a9)
         if call in ("sld_w", "ior_w", "mirror_w", "ior_list") and ekind in ("node", "edge-of-range"):
             ekind, e = "random", math.exp(rng.uniform(math.log(0.03), math.log(30.0)))
         try:
@@ -705,7 +705,7 @@ def run(run: Run) -> int:
         "numpy.interp / complex sqrt / broadcasting are modelled, not verified; the principal-branch "
         "hypothesis 0 <= re(csqrt z) of the reflectivity theorem is checked only by the correspondence",
         "atomic masses and element densities are taken from the table as served (C06 proves those)",
-        "natural_density= is exercised on ion-free compounds only (the natural mass of ions is C12's D7)"],
+        "natural_density= is exercised on every atom kind; the natural partner of an ion keeps its charge"],
         extra=dict(tables=len(c.tables), table_rows=sum(len(t.raw) for t in c.tables.values())))
 
 
